@@ -2,6 +2,7 @@ package props
 
 import (
 	"fmt"
+	"go/token"
 	"sort"
 	"strings"
 
@@ -65,28 +66,9 @@ func runC13(r *Run) {
 	why := "if writer and reader disagree on the layout, deltas or signed data are attached to the wrong operation and the batch does not read back as written"
 
 	// --- layout: writer chunk order
-	var writerSeq []string
-	if f := r.fn(P, pkgModels, "CreateChunkFile"); f != nil {
-		ff := r.E.Facts(f, core.Ctx{})
-		// the Deltas field of the returned literal
-		for _, b := range f.Blocks {
-			for _, ins := range b.Instrs {
-				st, ok := ins.(*ssa.Store)
-				if !ok {
-					continue
-				}
-				if fa, ok := st.Addr.(*ssa.FieldAddr); ok && fieldName(fa) == "Deltas" {
-					ops, _ := appendChain(st.Val)
-					for _, o := range ops {
-						writerSeq = append(writerSeq, groupOf(ff.TB.Of(o)))
-					}
-				}
-			}
-		}
-		want := []string{"Create", "Recover", "Update"}
-		r.R.Check(fmt.Sprint(writerSeq) == fmt.Sprint(want), P+".layout.writer.chunk", "E12: chunk deltas are appended in the order create, recover, update", core.FuncName(f), r.where(f), why, fmt.Sprint(writerSeq), fmt.Sprintf("writer order %v, expected %v", writerSeq, want))
-	}
+	writerSeq := r.checkWriterChunkOrder(P)
 	r.checkReaderLayout(P, writerSeq)
+	r.checkReaderCountsMismatchOnly(P)
 	// --- layout: proof / index writers
 	type listSpec struct{ fn, field, want string }
 	for _, ls := range []listSpec{
@@ -767,4 +749,120 @@ func (r *Run) checkReaderLayout(P string, writerSeq []string) {
 		}
 		r.R.Check(okAO, P+".request.recover.anchororigin.reader", "E5 provenance: a read-back recover takes its anchor origin from its own signed data", core.FuncName(f), r.where(f), "the anchor origin embedded in the request must be what is reported", "from ParseSignedDataForRecover(signedData)", "no such assignment")
 	}
+}
+
+// checkWriterChunkOrder: the order in which the chunk file writer appends the
+// delta groups (shared by C13 and C20); returns the derived sequence.
+func (r *Run) checkWriterChunkOrder(P string) []string {
+	why := "if writer and reader disagree on the layout, deltas or signed data are attached to the wrong operation and the batch does not read back as written"
+	var writerSeq []string
+	if f := r.fn(P, pkgModels, "CreateChunkFile"); f != nil {
+		ff := r.E.Facts(f, core.Ctx{})
+		// the Deltas field of the returned literal
+		for _, b := range f.Blocks {
+			for _, ins := range b.Instrs {
+				st, ok := ins.(*ssa.Store)
+				if !ok {
+					continue
+				}
+				if fa, ok := st.Addr.(*ssa.FieldAddr); ok && fieldName(fa) == "Deltas" {
+					ops, _ := appendChain(st.Val)
+					for _, o := range ops {
+						writerSeq = append(writerSeq, groupOf(ff.TB.Of(o)))
+					}
+				}
+			}
+		}
+		want := []string{"Create", "Recover", "Update"}
+		r.R.Check(fmt.Sprint(writerSeq) == fmt.Sprint(want), P+".layout.writer.chunk", "E12: chunk deltas are appended in the order create, recover, update", core.FuncName(f), r.where(f), why, fmt.Sprint(writerSeq), fmt.Sprintf("writer order %v, expected %v", writerSeq, want))
+	}
+	return writerSeq
+}
+
+// checkReaderCountsMismatchOnly: the reader's count validation may reject a
+// batch only because two counts that the writer keeps equal differ. A rejection
+// decided by comparing a count with a constant (e.g. "no create/recover/update
+// although a provisional index is referenced") is a rule the writer does not
+// obey: it emits the provisional files whenever some queued operation is not a
+// deactivate, including operations it defers or drops as expired.
+func (r *Run) checkReaderCountsMismatchOnly(P string) {
+	f := r.fn(P, pkgProvider, "validateBatchFileCounts")
+	if f == nil {
+		return
+	}
+	ff := r.E.Facts(f, core.Ctx{})
+	var isCount func(v ssa.Value, depth int) bool
+	isCount = func(v ssa.Value, depth int) bool {
+		if v == nil || depth > 6 {
+			return false
+		}
+		switch x := stripConv(v).(type) {
+		case *ssa.Call:
+			return isBuiltin(x, "len")
+		case *ssa.Phi:
+			some := false
+			for _, e := range x.Edges {
+				if c, ok := e.(*ssa.Const); ok && c.Value != nil && c.Value.ExactString() == "0" {
+					continue
+				}
+				if !isCount(e, depth+1) {
+					return false
+				}
+				some = true
+			}
+			return some
+		case *ssa.BinOp:
+			return x.Op == token.ADD && isCount(x.X, depth+1) && isCount(x.Y, depth+1)
+		}
+		return false
+	}
+	good := true
+	var det []string
+	nFail := 0
+	for _, b := range f.Blocks {
+		ret, ok := b.Instrs[len(b.Instrs)-1].(*ssa.Return)
+		if !ok || isNilConstV(core.RetOp(ret, 0)) {
+			continue
+		}
+		nFail++
+		// the deciding comparison: the condition of the nearest dominating If whose taken edge leads here
+		dec := decidingCond(b)
+		bo, isCmp := dec.(*ssa.BinOp)
+		switch {
+		case !isCmp:
+			good = false
+			det = append(det, r.P.Pos(ret.Pos())+": rejection not decided by a comparison")
+		case isCount(bo.X, 0) && isCount(bo.Y, 0) && (bo.Op == token.NEQ || bo.Op == token.EQL):
+			// mismatch between two counts
+		default:
+			good = false
+			det = append(det, r.P.Pos(ret.Pos())+": rejection decided by "+ff.TB.Of(bo.X).String()+" "+bo.Op.String()+" "+ff.TB.Of(bo.Y).String()+", which is not a mismatch between two counts")
+		}
+	}
+	r.R.Check(good && nFail >= 4, P+".counts.reader.mismatch.only", "E12 sibling agreement (reader ↔ writer): every rejection of validateBatchFileCounts is decided by an (in)equality between two list lengths (or sums of lengths) — never by a count compared with a constant", core.FuncName(f), r.where(f),
+		"a reader-side rule the writer does not obey makes batches unreadable: a deactivate-only batch written together with deferred or expired operations carries a provisional index and an empty chunk file",
+		fmt.Sprintf("%d rejections, all count mismatches", nFail), strings.Join(det, "; "))
+}
+
+// decidingCond: the branch condition that immediately decides block b (walking up through single-predecessor jumps).
+func decidingCond(b *ssa.BasicBlock) ssa.Value {
+	for depth := 0; depth < 8 && b != nil; depth++ {
+		if len(b.Preds) != 1 {
+			return nil
+		}
+		p := b.Preds[0]
+		if iff, ok := p.Instrs[len(p.Instrs)-1].(*ssa.If); ok {
+			c := iff.Cond
+			for {
+				u, ok := c.(*ssa.UnOp)
+				if !ok || u.Op != token.NOT {
+					break
+				}
+				c = u.X
+			}
+			return c
+		}
+		b = p
+	}
+	return nil
 }
